@@ -14,10 +14,11 @@ import Driver.C07
 import Driver.C19
 import Driver.C04
 import Driver.C16
+import Driver.C03
 open MongoModel.Wire
 
 def handlers : List (List String → Option (List String)) :=
-  [Driver.handleC01, Driver.handleHist, Driver.handleC18, Driver.handleC17, Driver.handleC11, Driver.handleC20, Driver.handleC12, Driver.handleC07, Driver.handleC19, Driver.handleC04, Driver.handleC16]
+  [Driver.handleC01, Driver.handleHist, Driver.handleC18, Driver.handleC17, Driver.handleC11, Driver.handleC20, Driver.handleC12, Driver.handleC07, Driver.handleC19, Driver.handleC04, Driver.handleC16, Driver.handleC03i]
 
 def handle (ts : List String) : List String :=
   match handlers.findSome? (· ts) with
